@@ -28,7 +28,8 @@ class Gen01(mut.Gen):
         if self.rng.random() < self.special_share:
             k = self.rng.choice(["clone_pair", "clone_pair", "nested_clone", "nested_clone", "equal_distinct", "move_own",
                                  "move_near", "move_near", "remove_clones", "remove_keep", "remove_keep_clones", "remove_children",
-                                 "rekey_group", "rekey_group", "split_group", "del_clone", "copy_branch"])
+                                 "rekey_group", "rekey_group", "split_group", "del_clone", "copy_branch", "twins", "twins", "twin_route",
+                                 "twin_route", "twin_route"])
             try:
                 if getattr(self, "sp_" + k)():
                     return
@@ -96,6 +97,72 @@ class Gen01(mut.Gen):
         a, b = rng.sample(eq, 2)
         self.do(["add", ti, p, a, "X1", self._kind(ti), None])
         self.do(["add", ti, p, b, "X2", self._kind(ti), rng.choice([None, True, 0])])
+        return True
+
+    def _twin_sets(self, ti):
+        """per parent: groups of >= 2 children whose data compare equal (distinct nodes, necessarily distinct ids)"""
+        t = self.w.trees[ti]
+        out = []
+        for p in [t._root] + self._tree_nodes(ti):
+            ch = list(p._children or [])
+            for i, a in enumerate(ch):
+                grp = [a] + [b for b in ch[i + 1:] if b._data == a._data]
+                if len(grp) > 1 and not any(a is m for g in out for m in g[1]):
+                    out.append((p, grp))
+        return out
+
+    def sp_twins(self):
+        """make twins: an equal-comparing object under another explicit id next to an existing node, with a child"""
+        w, rng = self.w, self.rng
+        ti = self.pick_tree()
+        t = w.trees[ti]
+        eq = [i for i, s in enumerate(self.univ) if s.startswith("e:")]
+        n = self._pick(ti, lambda x: w.U.index(x._data) in eq)
+        if n is None:
+            return self.sp_equal_distinct()
+        same = [i for i in eq if self.univ[i] == self.univ[w.U.index(n._data)]]
+        p = n._parent
+        pr = 0 if p is t._root else w.rel(p)
+        self.do(["add", ti, pr, rng.choice(same), f"tw{len(self.ops)}", self._kind(ti), rng.choice([None, True, 0, {"n": w.rel(n)}])])
+        sets = self._twin_sets(ti)
+        if sets:
+            _, grp = rng.choice(sets)
+            self.do(["add", ti, w.rel(rng.choice(grp)), rng.randrange(len(self.univ)), None, self._kind(ti), None])
+        return True
+
+    def sp_twin_route(self):
+        """a removal route that treats equal-comparing siblings differently"""
+        w, rng = self.w, self.rng
+        ti = self.pick_tree()
+        t = w.trees[ti]
+        sets = self._twin_sets(ti)
+        if not sets:
+            return self.sp_twins()
+        p, grp = rng.choice(sets)
+        pr = 0 if p is t._root else w.rel(p)
+        victim = rng.choice(grp[1:] + grp[-1:])          # mostly NOT the first of the twins
+        route = rng.choice(["filter", "filter", "filter", "remove", "remove_keep", "del", "move", "remove_children", "sort"])
+        if route == "filter":
+            verd = {str(w.rel(g)): "T" for g in grp}
+            verd[str(w.rel(victim))] = rng.choice(["F", "skip", "stop", "skip!", "F"])
+            if rng.random() < 0.3:
+                for d in self._subtree(victim):
+                    verd[str(w.rel(d))] = "F"
+            self.do(["filter", ti, rng.choice([0, pr]), verd])
+        elif route == "remove":
+            self.do(["remove", ti, w.rel(victim), False, rng.random() < 0.2])
+        elif route == "remove_keep":
+            self.do(["remove", ti, w.rel(victim), True, False])
+        elif route == "del":
+            self.do(["del", ti, {"nid": w.rel(victim)}])
+        elif route == "move":
+            tgt = self.any_node(ti)
+            self.do(["move", ti, w.rel(victim), ti, tgt, self.before_arg(ti, tgt)])
+        elif route == "remove_children":
+            self.do(["remove_children", ti, w.rel(victim)])
+        else:
+            tbl = {str(w.rel(g)): rng.choice("abc") for g in grp}
+            self.do(["sort", ti, pr, {"tbl": tbl}, rng.random() < 0.5, rng.random() < 0.5])
         return True
 
     def sp_move_own(self):
@@ -246,3 +313,74 @@ def gen_history(rng, n_ops=30, *, malformed=False, univ=None, ntrees=None, cls=G
         except Exception:
             pass
     return {"univ": g.univ, "ops": g.ops[:n_ops + ntrees + 1]}
+
+
+# ---------------------------------------------------------------------------
+# "twins": siblings whose data objects compare equal (== and hash) but are distinct objects under distinct
+# explicit data_ids, each with its own subtree.  Every removal route is run with arguments that treat the
+# twins DIFFERENTLY (an equality search in a child list then hits the wrong twin).
+# ---------------------------------------------------------------------------
+TWIN_UNIV = ["e:1", "e:1", "e:1", "s:x", "s:y", "s:p", "s:q", "s:c", "s:new", "e:9"]
+
+
+def twin_forests():
+    # NODE = [label, kind, data_id, children]
+    a = [0, None, "k1", [[3, None, None, []]]]
+    b = [1, None, "k2", [[4, None, None, [[7, None, None, []]]]]]
+    c = [2, None, "k3", []]
+    yield "twins/top", [a, b, c]
+    yield "twins/below", [[5, None, None, [a, b, [7, None, "c1", []]]], [6, None, None, []]]
+
+
+def _twin_ids(nodes):
+    """relative ids (pre-order) of the nodes labelled 0..2 and of all nodes, parent of the twins"""
+    ids, twins, parent = [], [], [0]
+
+    def go(p, lst):
+        for lbl, kind, did, ch in lst:
+            ids.append(len(ids) + 1)
+            me = ids[-1]
+            if lbl in (0, 1, 2):
+                twins.append(me)
+                parent[0] = p
+            go(me, ch)
+
+    go(0, nodes)
+    return ids, twins, parent[0]
+
+
+def gen_twins(quick=True):
+    import itertools
+    for label, nodes in twin_forests():
+        setup = [["new", False, None]] + mut.setup_ops(nodes, 0, False)
+        ids, twins, par = _twin_ids(nodes)
+        alts = []
+        vset = ["T", "F", "skip", "stop"] if quick else ["T", "F", "N", "skip", "skip_keep", "select", "stop"]
+        for combo in itertools.product(vset, repeat=len(twins)):
+            if len(set(combo)) == 1:
+                continue                                  # the twins are treated alike
+            verd = {str(t): v for t, v in zip(twins, combo)}
+            for at in {0, par}:
+                alts.append(["filter", 0, at, verd])
+        # one twin rejected through its children only (F with a kept descendant), the other plainly
+        for t in twins:
+            alts.append(["filter", 0, 0, {str(x): ("F" if x == t else "T") for x in ids}])
+            alts.append(["filter", 0, 0, {str(x): ("T" if x == t else "F") for x in ids}])
+        alts += mut.single_ops(nodes, TWIN_UNIV, False, ("remove", "move", "del", "remove_children", "sort", "clear") if not quick
+                               else ("remove", "del", "remove_children", "sort"))
+        if quick:
+            for t in twins:
+                for p in [0] + [x for x in ids if x != t]:
+                    for b in (None, True, {"n": twins[0]} if p == par and twins[0] != t else 1):
+                        alts.append(["move", 0, t, 0, p, b])
+        # sort keys that reorder the twins / tie them
+        for rev in (False, True):
+            alts.append(["sort", 0, par, {"tbl": {str(t): "cba"[i % 3] for i, t in enumerate(twins)}}, rev, False])
+            alts.append(["sort", 0, par, {"tbl": {str(t): "a" for t in twins}}, rev, True])
+        seen, out = set(), []
+        for o in alts:
+            k = repr(o)
+            if k not in seen:
+                seen.add(k)
+                out.append(o)
+        yield dict(univ=TWIN_UNIV, setup=setup, alts=out, label=label, n=len(ids))
